@@ -1537,15 +1537,27 @@ def evaluate__function_lookup(self: XPathFunction, context: ta.ContextType = Non
     return func
 
 
+def is_function_item_token(token: XPathToken) -> bool:
+    """
+    Is the token a function item by itself (an inline function, a partial application or a
+    function reference), so not a function call expression to be evaluated?
+    """
+    return isinstance(token, XPathFunction) and (
+        token.symbol == 'function' or bool(token.is_reference())
+        or token.label in ('partial function', 'inline partial function')
+    )
+
+
 @method(function('function-name', nargs=1, sequence_types=('function(*)', 'xs:QName?')))
 def evaluate__function_name(self: XPathFunction, context: ta.ContextType = None) \
         -> ta.OneOrEmpty[QName]:
     if self.context is not None:
         context = self.context
 
-    if isinstance(self[0], XPathFunction):
+    if is_function_item_token(self[0]):
         func = self[0]
     else:
+        # the argument is evaluated: a function call expression is not a function item
         func = self.get_argument(context)
 
     if not isinstance(func, XPathFunction):
@@ -1559,8 +1571,8 @@ def evaluate__function_name(self: XPathFunction, context: ta.ContextType = None)
 
 @method(function('function-arity', nargs=1, sequence_types=('function(*)', 'xs:integer')))
 def evaluate__function_arity(self: XPathFunction, context: ta.ContextType = None) -> int:
-    if isinstance(self[0], XPathFunction):
-        return self[0].arity
+    if is_function_item_token(self[0]):
+        return cast(XPathFunction, self[0]).arity
 
     func: XPathFunction
     func = self.get_argument(self.context or context, cls=XPathFunction, required=True)
@@ -1574,9 +1586,8 @@ def select__for_each(self: XPathFunction, context: ta.ContextType = None) \
     if self.context is not None:
         context = self.context
 
-    func = self[1][1] if self[1].symbol == ':' else self[1]
-    if not isinstance(func, XPathFunction):
-        func = self.get_argument(context, index=1, cls=XPathFunction, required=True)
+    # the argument is evaluated: a function call expression is not a function item
+    func = self.get_argument(context, index=1, cls=XPathFunction, required=True)
     assert isinstance(func, XPathFunction)
 
     for item in self[0].select(context):
@@ -1591,9 +1602,8 @@ def select__for_each(self: XPathFunction, context: ta.ContextType = None) \
                  sequence_types=('item()*', 'function(item()) as xs:boolean', 'item()*')))
 def select__filter(self: XPathFunction, context: ta.ContextType = None)\
         -> Iterator[ta.ItemType]:
-    func = self[1][1] if self[1].symbol == ':' else self[1]
-    if not isinstance(func, XPathFunction):
-        func = self.get_argument(context, index=1, cls=XPathFunction, required=True)
+    # the argument is evaluated: a function call expression is not a function item
+    func = self.get_argument(context, index=1, cls=XPathFunction, required=True)
     assert isinstance(func, XPathFunction)
 
     if func.nargs == 0:
@@ -1612,9 +1622,8 @@ def select__filter(self: XPathFunction, context: ta.ContextType = None)\
                                  'function(item()*, item()) as item()*', 'item()*')))
 def select__fold_left(self: XPathFunction, context: ta.ContextType = None) \
         -> Iterator[ta.ItemType]:
-    func = self[2][1] if self[2].symbol == ':' else self[2]
-    if not isinstance(func, XPathFunction):
-        func = self.get_argument(context, index=2, cls=XPathFunction, required=True)
+    # the argument is evaluated: a function call expression is not a function item
+    func = self.get_argument(context, index=2, cls=XPathFunction, required=True)
     assert isinstance(func, XPathFunction)
 
     if func.arity != 2:
@@ -1637,9 +1646,8 @@ def select__fold_left(self: XPathFunction, context: ta.ContextType = None) \
                                  'function(item()*, item()) as item()*', 'item()*')))
 def select__fold_right(self: XPathFunction, context: ta.ContextType = None) \
         -> Iterator[ta.ItemType]:
-    func = self[2][1] if self[2].symbol == ':' else self[2]
-    if not isinstance(func, XPathFunction):
-        func = self.get_argument(context, index=2, cls=XPathFunction, required=True)
+    # the argument is evaluated: a function call expression is not a function item
+    func = self.get_argument(context, index=2, cls=XPathFunction, required=True)
     assert isinstance(func, XPathFunction)
 
     if func.arity != 2:
@@ -1664,9 +1672,8 @@ def select__fold_right(self: XPathFunction, context: ta.ContextType = None) \
                                  'function(item(), item()) as item()*', 'item()*')))
 def select__for_each_pair(self: XPathFunction, context: ta.ContextType = None) \
         -> Iterator[ta.ItemType]:
-    func = self[2][1] if self[2].symbol == ':' else self[2]
-    if not isinstance(func, XPathFunction):
-        func = self.get_argument(context, index=2, cls=XPathFunction, required=True)
+    # the argument is evaluated: a function call expression is not a function item
+    func = self.get_argument(context, index=2, cls=XPathFunction, required=True)
 
     if not isinstance(func, XPathFunction):
         raise self.error('XPTY0004', "invalid type for 3rd argument {!r}".format(func))
